@@ -4,6 +4,11 @@
         <gp> <gf> <gqa> <onorm|-> <out|-> <temb|-> <ngpus> {keyclass idclass lib free min}*
       -> fit=<0|1>,<vram> | <estimate of ByLibrary group 1> | <estimate of group 2> ...   (the model groups)
     where <estimate> = L=.. G=.. V=.. T=.. S=<a,b,..|-> Z=<a,b,..|-> kv=.. mw=.. mo=.. gf=.. gp=.. pw=.. pg=.. B=<EstimatedVRAMByGPU of each GPU of the group>
+    c16pick <spread 0|1> <numParallel> <defaultParallel> <n> {p <common>}* <ngpus> {keyclass idclass lib free min}*
+      -> nil | ids=<returned GPU id classes in order> p=<*numParallel>     (pickBestFullFitByLibrary;
+         <common> = the c16 arguments from <variant> to <temb|->, derived for parallelism p)
+    c16part <common> <ngpus> {keyclass idclass lib free min}*
+      -> ids=<returned GPU id classes in order>                           (pickBestPartialFitByLibrary)
     c16free <ngpus> {key idk total free}* <nrunners> {nil | <n> {idk est}*}*
       -> f1,f2,...   (FreeMemory of every GPU after Scheduler.updateFreeSpace)
 -/
@@ -73,30 +78,41 @@ def showEst (e : Est) : String :=
     | some l => commaOrDash l
   s!"L={e.layers} G={e.graph} V={e.vram} T={e.total} S={s} Z={commaOrDash e.sizes} kv={e.kv} mw={e.memWeights} mo={e.memOut} gf={e.gF} gp={e.gP} pw={e.projW} pg={e.projG}"
 
+/-- `<variant> <numGPU> <overhead> <nproj> {pw pg}* <vw> <vg> <blk0|-> <nblocks> {w|- kv}* <gp> <gf> <gqa>
+    <onorm|-> <out|-> <temb|->` -/
+def pCommon : TP Inp := do
+  let variant ← nat
+  let numGPU ← int
+  let overhead ← nat
+  let projs ← listOf pPair
+  let vw ← nat
+  let vg ← nat
+  let blk0 ← optNat
+  let blocks ← listOf pBlock
+  let gp ← nat
+  let gf ← nat
+  let gqa ← nat
+  let onorm ← optNat
+  let out ← optNat
+  let temb ← optNat
+  pure { lib := .other, gpus := [], overhead := overhead, projs := projs, vision := (vw, vg),
+         blk0 := blk0, blocks := blocks, graphPartial := gp, graphFull := gf, gqa := gqa,
+         outNorm := onorm, output := out, tokenEmbd := temb, numGPU := numGPU,
+         ovSafe := variant != 0 }
+
+def pTry : TP (Nat × Inp) := do
+  let p ← nat
+  let c ← pCommon
+  pure (p, c)
+
+def showIds (l : List FGpu) : String := commaOrDash (l.map (·.idk))
+
 def handle (toks : List String) : Option String :=
   match toks with
   | "c16" :: rest =>
     runTP (do
-      let variant ← nat
-      let numGPU ← int
-      let overhead ← nat
-      let projs ← listOf pPair
-      let vw ← nat
-      let vg ← nat
-      let blk0 ← optNat
-      let blocks ← listOf pBlock
-      let gp ← nat
-      let gf ← nat
-      let gqa ← nat
-      let onorm ← optNat
-      let out ← optNat
-      let temb ← optNat
+      let common ← pCommon
       let all ← listOf pFGpu
-      let common : Inp :=
-        { lib := .other, gpus := [], overhead := overhead, projs := projs, vision := (vw, vg),
-          blk0 := blk0, blocks := blocks, graphPartial := gp, graphFull := gf, gqa := gqa,
-          outNorm := onorm, output := out, tokenEmbd := temb, numGPU := numGPU,
-          ovSafe := variant != 0 }
       let fit := predictFitAll common all
       let ests := (byLibrary all).map fun g =>
         let e := estimate { common with lib := g.lib, gpus := g.gpus }
@@ -109,6 +125,29 @@ def handle (toks : List String) : Option String :=
       let gpus ← listOf pSGpu
       let runners ← listOf pRunner
       pure (commaOrDash (updateFree gpus runners))) rest
+  | "c16pick" :: rest =>
+    runTP (do
+      let spread ← nat
+      let np ← int
+      let dp ← nat
+      let commons ← listOf pTry
+      let all ← listOf pFGpu
+      let dflt : Inp := match commons with
+        | (_, c) :: _ => c
+        | [] => { lib := .other, gpus := [], overhead := 0, projs := [], vision := (0, 0), blk0 := none,
+                  blocks := [], graphPartial := 0, graphFull := 0, gqa := 0, outNorm := none,
+                  output := none, tokenEmbd := none, numGPU := 0 }
+      let commonOf : Nat → Inp := fun p => match commons.lookup p with
+        | some c => c
+        | none => dflt
+      pure (match pickFull commonOf np dp (spread != 0) all with
+        | none => "nil"
+        | some (l, p) => s!"ids={showIds l} p={p}")) rest
+  | "c16part" :: rest =>
+    runTP (do
+      let common ← pCommon
+      let all ← listOf pFGpu
+      pure s!"ids={showIds (pickPartial common all)}") rest
   | _ => none
 
 end Oracle.C16
